@@ -2032,13 +2032,21 @@ class ImportManager:
     self.imports = []
     self.module_selectors = {}
     self.names = set()
-    # Prefer to order `from` style imports first.
-    for statement in sorted(imports, key=lambda s: (s.module, not s.is_from)):
+    # `__gin__` feature statements first (they must never be re-aliased), then
+    # by module, preferring to order `from` style imports first.
+    for statement in sorted(
+        imports,
+        key=lambda s: (not s.module.startswith('__gin__.'), s.module,
+                       not s.is_from)):
       self.add_import(statement)
 
   @property
   def sorted_imports(self):
-    return sorted(self.imports, key=lambda s: s.module)
+    # `__gin__` feature statements sort first whatever the other module names
+    # are: dynamic registration must be enabled before any other import.
+    return sorted(
+        self.imports,
+        key=lambda s: (not s.module.startswith('__gin__.'), s.module))
 
   def add_import(self, statement: config_parser.ImportStatement):
     """Adds a single import to this `ImportManager` instance.
